@@ -260,6 +260,9 @@ class Engine:
             raise Unmodelled('deref of %r in %s' % (v, self.where()))
         if k == 'field':
             v = self.place_cell(fr, p[1]).v
+            if p[1][0] == 'downcast' and isinstance(p[1][2], int) and isinstance(v, Struct) and v.name == 'coroutine':
+                store = v.f[-2].v.data.setdefault('vars', {})
+                return store.setdefault((p[1][2], p[2]), Cell())
             if isinstance(v, (Struct, Enum)):
                 try: return v.f[p[2]]
                 except IndexError:
@@ -365,6 +368,8 @@ class Engine:
             w = INT_W[m.group(1)]; signed = m.group(1)[0] == 'i'
             if m.group(2) == 'MAX': return (1 << (w - 1)) - 1 if signed else (1 << w) - 1
             return -(1 << (w - 1)) if signed else 0
+        ev = self.enum_variant(c)
+        if ev: return Enum(ev[0], ev[1], [])
         # function item or other path
         return FnItem(c)
 
@@ -713,6 +718,31 @@ class Engine:
         fv_u = un(fv)
         if isinstance(fv_u, (Closure, FnItem, PyObj)): return self.call_closure(fv, args)
         raise Unmodelled('call of %r' % (fv_u,))
+
+    def coroutine_fn(self, co):
+        span = co.f[-2].v.data.get('span', '')
+        m = re.search(r'(src/[\w/]+\.rs:\d+:\d+: \d+:\d+)', span)
+        key = m.group(1) if m else span
+        for sp, f in self.closure_by_span.items():
+            if key in sp: return f
+        raise Unmodelled('coroutine body for %s not found' % span)
+
+    def poll(self, fut):
+        """poll a future value once: returns the Poll enum"""
+        co = un(fut)
+        if isinstance(co, Struct) and co.name == 'Pin': co = un(co.f[0].v)
+        if isinstance(co, PyObj): return co.mir_call(self, 'Future', 'poll', [fut])
+        if not (isinstance(co, Struct) and co.name == 'coroutine'): raise Unmodelled('poll of %r' % (co,))
+        f = self.coroutine_fn(co)
+        cell = fut.cell if isinstance(fut, Ref) and fut.cell.v is co else Cell(co)
+        return self.run_func(f, [Struct('Pin', [Ref(cell)]), Opaque('Context')])
+
+    def block_on(self, fut, max_polls=4):
+        """drive a future to completion; Pending without a modelled wake-up source is inconclusive"""
+        for _ in range(max_polls):
+            r = self.poll(fut)
+            if r.variant == 0: return r.f[0].v
+        raise Unmodelled('future still pending after %d polls' % max_polls)
 
     def drop_value(self, v, seen=None):
         """run Drop impls of crate types inside v (drop glue)"""
